@@ -454,7 +454,7 @@ class _Built:
             form = nz.get("form", "list")
             self.noise_arg = np.array(per_field, dtype=float) if form == "array" else list(per_field)
             if form == "dict":
-                self.noise_arg = {name: v for name, v in zip(("u", "v"), per_field)}
+                self.noise_arg = {name: v for name, v in zip(("u", "c"), per_field)}
         if zero:
             zf = nz.get("zero_form", "int")
             if zf == "int":
@@ -488,7 +488,8 @@ def _make_equation(B: _Built, rng, deterministic: bool = False):
     if eq["kind"] == "pde":
         lap = f" + {eq['D']!r} * laplace(u)" if eq.get("D") else ""
         if len(B.ranks) == 2:
-            rhs = {"u": f"-{eq['k']!r} * u + {eq['c']!r} * v{lap}", "v": f"-{eq['k']!r} * v - {eq['c']!r} * u"}
+            # (field names deliberately NOT in alphabetical order: variances given by name must follow the order of the rhs)
+            rhs = {"u": f"-{eq['k']!r} * u + {eq['c']!r} * c{lap}", "c": f"-{eq['k']!r} * c - {eq['c']!r} * u"}
         else:
             rhs = {"u": f"-{eq['k']!r} * u{lap}"}
         if deterministic:
